@@ -93,8 +93,11 @@ def make_case(index, rng, tier):
     seg = rng.choice(["max", "k", "k", "bytes1", "small"])
     if total > 20000:
         seg = rng.choice(["max", "k"])
+    # tuning knobs: small head limits (every generated head fits them) also shrink the caps that protect the parser's other buffers
+    cfg = rng.choice([{}, {}, {"limit_request_fields": 5, "limit_request_field_size": 50}, {"limit_request_fields": 10, "limit_request_field_size": 100},
+                      {"limit_request_fields": 6, "limit_request_field_size": 0}])
     return {"msgs": [b2j(m) for m in msgs], "programs": [gen_program(rng) for _ in msgs],
-            "eof_at": eof, "seg": seg}
+            "eof_at": eof, "seg": seg, "cfg": cfg}
 
 
 def _cuts(case, n, choices):
@@ -135,7 +138,7 @@ def run(case, choices):
     cuts = _cuts(case, len(data), choices)
     res.faults["segmentation:" + case["seg"]] += 1
     sock = CutSock(data, cuts)
-    parser = RequestParser(make_cfg(), sock, ("10.0.0.9", 1))
+    parser = RequestParser(make_cfg(**case.get("cfg", {})), sock, ("10.0.0.9", 1))
     effective = 0
     i = -1
     try:
